@@ -88,6 +88,7 @@ def is_valid(number):
 
 def format(number):
     """Reformat the number to the standard presentation format."""
+    number = compact(number)
     if len(number) == 9:
         number = number[:2] + '-' + number[2:]
     return number
